@@ -17,7 +17,16 @@ import Proofs.C11
                             instant) is the label of every instant of the bucket;
   * `C12_bucket_label_iff`  two instants get the same day / month / year label exactly when they are in
                             the same bucket.
-  The `week` label (`%Y/%U`) is modelled and tied by stream `out.tlabel`; no theorem is stated for it.
+  * `C12_week_label_iff_false`, `C12_week_same_label_two_weeks`, `C12_week_one_week_two_labels`
+                            the week label `%Y/%U` (Sunday-based week number) does NOT match the Monday-based
+                            week bucket: the full equivalence is false (concrete witnesses);
+  * `C12_week_rows_distinct` (headline) distinct week buckets print distinct labels and one bucket has one
+                            label: the rows of a `-x week` table carry pairwise distinct leading fields;
+  * `C12_week_label_printed` the labels a `-x week` table prints (label of the bucket's Monday) are pairwise
+                            distinct for distinct buckets;
+  * `C12_week_label_own`, `C12_week_label_iff_partial`  an instant carries the label of its week row iff it
+                            is not a Sunday and in the same year as its Monday; for such instants equal
+                            labels ⇔ same bucket.
 -/
 namespace VerifModel.C12
 open VerifModel VerifModel.Calendar VerifModel.Axis VerifModel.TimeLabel VerifModel.C11Cal
@@ -290,5 +299,223 @@ theorem C12_bucket_label_iff (t₁ t₂ : Int) (h0 : tLo ≤ t₁) (h1 : t₁ < 
     simp only [Date.mk.injEq, and_true] at this
     rw [label_pos .year t₁ h0 h1, label_pos .year t₂ h0' h1']
     simp only [this]
+
+/-! ### `-x week`
+
+`Week.fmt` is `%Y/%U` — `%U` numbers the weeks that start on SUNDAY — while the `week` bucket of
+`axis.Week.compute_from_times` is the MONDAY-based week (`d - timedelta(days=d.weekday())`).  The full
+statement "two instants get the same week label exactly when they lie in the same week bucket" is
+therefore FALSE (`C12_week_label_iff_false`, concrete witnesses, replayed on the real tool: a Sunday
+carries the label of the week that starts the day after, and a week that contains 1 January carries two
+labels).  What holds, and is what a table shows, is proved below: the labels that are PRINTED (the
+label of the bucket's first instant, a Monday) are pairwise distinct for distinct week buckets
+(`C12_week_label_printed`), and an instant's own `%Y/%U` label is the label printed for its bucket
+exactly when the instant is not on a Sunday and lies in the same year as the Monday of its week
+(`C12_week_label_own`); for such instants the full equivalence holds (`C12_week_label_iff_partial`). -/
+
+/-- the full-strength statement (FALSE, see `C12_week_label_iff_false`): on every whole second of
+1900-2100 two instants have the same `-x week` label iff they are in the same week bucket -/
+def WeekLabelIff : Prop :=
+  ∀ t₁ t₂ : Int, tLo ≤ t₁ → t₁ < tEnd → tLo ≤ t₂ → t₂ < tEnd →
+    (label .week t₁ = label .week t₂ ↔ weekStart t₁ = weekStart t₂)
+
+/-- **Two different weeks, one label.**  2012-01-01T00:00Z (a Sunday) and 2012-01-02T00:00Z (the Monday
+after) both have the label `2012/01`, but lie in the week buckets of Monday 2011-12-26 and of Monday
+2012-01-02. -/
+theorem C12_week_same_label_two_weeks :
+    label .week 1325376000 = some "2012/01".toList ∧ label .week 1325462400 = some "2012/01".toList ∧
+      weekStart 1325376000 = 1324857600 ∧ weekStart 1325462400 = 1325462400 := by
+  decide +kernel
+
+/-- **One week, two labels.**  Saturday 2011-12-31 and Sunday 2012-01-01 lie in the same week bucket
+(Monday 2011-12-26) and have the labels `2011/52` and `2012/01`. -/
+theorem C12_week_one_week_two_labels :
+    weekStart 1325289600 = weekStart 1325376000 ∧
+      label .week 1325289600 = some "2011/52".toList ∧ label .week 1325376000 = some "2012/01".toList := by
+  decide +kernel
+
+/-- the negation of the full statement, on the first witness -/
+theorem C12_week_label_iff_false : ¬ WeekLabelIff := by
+  intro h
+  have hw := C12_week_same_label_two_weeks
+  have := (h 1325376000 1325462400 (by decide) (by decide) (by decide) (by decide)).1
+    (by rw [hw.1, hw.2.1])
+  rw [hw.2.2.1, hw.2.2.2] at this
+  exact absurd this (by decide)
+
+/-- a year has at most 366 days -/
+private theorem year_len (y : Nat) (hy : 1 ≤ y) :
+    daysFromCivil (y + 1) 1 1 ≤ daysFromCivil y 1 1 + 366 := by
+  simp only [daysFromCivil]
+  simp only [show (1 : Nat) ≤ 2 from by decide, show ¬ (1 : Nat) > 2 from by decide, if_true, if_false]
+  omega
+
+private theorem weekU_lt (t : Int) (h0 : tLo ≤ t) (h1 : t < tEnd) : weekU t < 100 := by
+  have F := facts t h0 h1
+  have h1' := F.year_le
+  have h2 := F.year_lt
+  have h3 := year_len (civil t).y (by have := F.ylo; omega)
+  have hw : wdaySun t < 7 := Nat.mod_lt _ (by decide)
+  simp only [weekU, yday]
+  omega
+
+/-- equal week labels = equal year and equal `%U` number -/
+private theorem week_label_eq_iff (t₁ t₂ : Int) (h0 : tLo ≤ t₁) (h1 : t₁ < tEnd) (h0' : tLo ≤ t₂)
+    (h1' : t₂ < tEnd) :
+    label .week t₁ = label .week t₂ ↔ (civil t₁).y = (civil t₂).y ∧ weekU t₁ = weekU t₂ := by
+  have F₁ := facts t₁ h0 h1
+  have F₂ := facts t₂ h0' h1'
+  rw [label_pos .week t₁ h0 h1, label_pos .week t₂ h0' h1']
+  simp only [Option.some.injEq]
+  constructor
+  · intro h
+    have hlen : ∀ n, (pad4 n).length = 4 := fun _ => rfl
+    have hy := List.append_inj_left h (by simp [hlen])
+    have h := List.append_inj_right h (by simp [hlen])
+    simp only [List.cons.injEq, true_and] at h
+    exact ⟨pad4_inj (by have := F₁.yhi; omega) (by have := F₂.yhi; omega) hy,
+      pad2_inj (weekU_lt t₁ h0 h1) (weekU_lt t₂ h0' h1') h⟩
+  · intro h
+    rw [h.1, h.2]
+
+/-- the week bucket of an instant of 1900-2100: day number, range, weekday (1900-01-01 is a Monday, so
+the bucket of an instant of the range is in the range) -/
+private theorem weekStart_facts (t : Int) (h0 : tLo ≤ t) (h1 : t < tEnd) :
+    weekStart t = unixOfDays (dayIndex t - weekday (dayIndex t)) ∧
+      dayIndex (weekStart t) = dayIndex t - weekday (dayIndex t) ∧
+      tLo ≤ weekStart t ∧ weekStart t < tEnd := by
+  have W := C11_week t h0 h1
+  simp only at W
+  obtain ⟨hz0, hz1, _, _⟩ := t_range t h0 h1
+  refine ⟨W.1, ?_, ?_, ?_⟩
+  · rw [W.1, dayIndex_unixOfDays]
+  · rw [W.1]
+    simp only [unixOfDays, weekday, tLo, epoch, lo] at hz0 ⊢
+    omega
+  · have := W.2.2.2.1
+    omega
+
+/-- **The printed week labels identify the rows.**  The label a table shows for a week bucket is the
+label of the bucket's first instant (its Monday, the axis value); for instants of 1900-2100 two
+buckets are shown with the same label iff they are the same bucket — no two rows of a `-x week`
+table share their leading field. -/
+theorem C12_week_label_printed (t₁ t₂ : Int) (h0 : tLo ≤ t₁) (h1 : t₁ < tEnd) (h0' : tLo ≤ t₂)
+    (h1' : t₂ < tEnd) :
+    label .week (weekStart t₁) = label .week (weekStart t₂) ↔ weekStart t₁ = weekStart t₂ := by
+  constructor
+  · intro h
+    obtain ⟨e₁, d₁, r₁, s₁⟩ := weekStart_facts t₁ h0 h1
+    obtain ⟨e₂, d₂, r₂, s₂⟩ := weekStart_facts t₂ h0' h1'
+    have hh := (week_label_eq_iff _ _ r₁ s₁ r₂ s₂).1 h
+    have G₁ := facts _ r₁ s₁
+    have G₂ := facts _ r₂ s₂
+    have a₁ := G₁.year_le
+    have a₂ := G₂.year_le
+    have hy := hh.1
+    have hu := hh.2
+    simp only [weekU, yday, wdaySun] at hu
+    rw [hy] at a₁ hu
+    rw [d₁] at a₁ hu
+    rw [d₂] at a₂ hu
+    have hz : dayIndex t₁ - weekday (dayIndex t₁) = dayIndex t₂ - weekday (dayIndex t₂) := by
+      obtain ⟨l₁, _, _, _⟩ := t_range t₁ h0 h1
+      obtain ⟨l₂, _, _, _⟩ := t_range t₂ h0' h1'
+      simp only [weekday, lo] at *
+      omega
+    rw [e₁, e₂, hz]
+  · intro h
+    rw [h]
+
+/-- **Headline (row level): the rows of a `-x week` table carry pairwise distinct labels, and one
+bucket has one label.**  The axis values of the `week` axis are the bucket starts `weekStart t` of the
+verified initialisation times `ts` (`np.unique`, so pairwise distinct); the leading field printed for a
+bucket is a function of the bucket alone (the label of its Monday), and distinct buckets print distinct
+labels.  So the leading field identifies the slice, which is what C12 asks; that the number shown is the
+`%U` (Sunday-based) week number of that Monday is a matter of convention (see above). -/
+theorem C12_week_rows_distinct (ts : List Int) (hr : ∀ t ∈ ts, tLo ≤ t ∧ t < tEnd)
+    (bs : List Int) (hb : ∀ b ∈ bs, ∃ t ∈ ts, b = weekStart t) (hn : bs.Nodup) :
+    (bs.map (label .week)).Nodup ∧
+    ∀ t₁ ∈ ts, ∀ t₂ ∈ ts, (weekStart t₁ = weekStart t₂ →
+        label .week (weekStart t₁) = label .week (weekStart t₂)) ∧
+      (weekStart t₁ ≠ weekStart t₂ → label .week (weekStart t₁) ≠ label .week (weekStart t₂)) := by
+  constructor
+  · induction bs with
+    | nil => simp
+    | cons b bs ih =>
+      rw [List.nodup_cons] at hn
+      rw [List.map_cons, List.nodup_cons]
+      refine ⟨?_, ih (fun u hu => hb u (List.mem_cons_of_mem _ hu)) hn.2⟩
+      intro hmem
+      obtain ⟨u, hu, hlab⟩ := List.mem_map.1 hmem
+      obtain ⟨t, ht, rfl⟩ := hb b (List.mem_cons_self ..)
+      obtain ⟨t', ht', rfl⟩ := hb u (List.mem_cons_of_mem _ hu)
+      have := (C12_week_label_printed t' t (hr t' ht').1 (hr t' ht').2 (hr t ht).1 (hr t ht).2).1 hlab
+      exact hn.1 (this ▸ hu)
+  · intro t₁ h₁ t₂ h₂
+    have := C12_week_label_printed t₁ t₂ (hr t₁ h₁).1 (hr t₁ h₁).2 (hr t₂ h₂).1 (hr t₂ h₂).2
+    exact ⟨fun e => this.2 e, fun ne e => ne (this.1 e)⟩
+
+/-- non-vacuity: the four initialisation times of the witness file (Sat 2011-12-31, Sun 2012-01-01,
+Mon 2012-01-02, Sun 2012-01-08) make two week rows, labelled 2011/52 and 2012/01 -/
+example : [1325289600, 1325376000, 1325462400, 1325980800].map weekStart =
+      [1324857600, 1324857600, 1325462400, 1325462400] ∧
+    [1324857600, 1325462400].map (label .week) = [some "2011/52".toList, some "2012/01".toList] := by
+  decide +kernel
+example := C12_week_rows_distinct [1325289600, 1325376000, 1325462400, 1325980800]
+  (by intro t ht; simp only [List.mem_cons, List.not_mem_nil, or_false] at ht
+      rcases ht with rfl | rfl | rfl | rfl <;> decide)
+  [1324857600, 1325462400]
+
+/-- an instant's own `%Y/%U` label is the one its week row shows -/
+def WeekLabelAgrees (t : Int) : Prop :=
+  weekday (dayIndex t) ≠ 6 ∧ (civil t).y = (civil (weekStart t)).y
+
+/-- **Which instants carry the label of their week row.**  For an instant of 1900-2100 the label
+`%Y/%U` of the instant itself equals the label printed for its week bucket iff the instant is not on a
+Sunday (weekday 6, Monday = 0) and lies in the same year as the Monday of its week.  Every Sunday,
+and the days before the first Monday-week boundary after New Year, are reported in a row that shows
+another label. -/
+theorem C12_week_label_own (t : Int) (h0 : tLo ≤ t) (h1 : t < tEnd) :
+    label .week t = label .week (weekStart t) ↔ WeekLabelAgrees t := by
+  obtain ⟨e, d, r, s⟩ := weekStart_facts t h0 h1
+  have F := facts t h0 h1
+  have G := facts _ r s
+  have a := F.year_le
+  have b := G.year_le
+  rw [week_label_eq_iff t _ h0 h1 r s]
+  simp only [WeekLabelAgrees, weekU, yday, wdaySun]
+  rw [d] at b ⊢
+  obtain ⟨l, _, _, _⟩ := t_range t h0 h1
+  constructor
+  · intro ⟨hy, hu⟩
+    refine ⟨?_, hy⟩
+    rw [← hy] at b hu
+    simp only [weekday, lo] at *
+    omega
+  · intro ⟨hw, hy⟩
+    refine ⟨hy, ?_⟩
+    rw [← hy] at b ⊢
+    simp only [weekday, lo] at *
+    omega
+
+/-- **`C12_week_label_iff`, the part that holds** (the full statement `WeekLabelIff` is false,
+`C12_week_label_iff_false`; missing: instants on a Sunday and instants of a week's tail that falls into
+the next year): for instants of 1900-2100 whose own label is the label of their week row, equal labels
+⇔ same week bucket. -/
+theorem C12_week_label_iff_partial (t₁ t₂ : Int) (h0 : tLo ≤ t₁) (h1 : t₁ < tEnd) (h0' : tLo ≤ t₂)
+    (h1' : t₂ < tEnd) (a₁ : WeekLabelAgrees t₁) (a₂ : WeekLabelAgrees t₂) :
+    label .week t₁ = label .week t₂ ↔ weekStart t₁ = weekStart t₂ := by
+  rw [(C12_week_label_own t₁ h0 h1).2 a₁, (C12_week_label_own t₂ h0' h1').2 a₂]
+  exact C12_week_label_printed t₁ t₂ h0 h1 h0' h1'
+
+/-- non-vacuity: Tuesday 2012-01-03T06:00Z and Saturday 2012-01-07T18:00Z agree with their week row
+(Monday 2012-01-02, label 2012/01) -/
+example : WeekLabelAgrees 1325570400 ∧ WeekLabelAgrees 1325959200 ∧
+    weekStart 1325570400 = 1325462400 ∧ weekStart 1325959200 = 1325462400 ∧
+    label .week 1325570400 = some "2012/01".toList := by
+  unfold WeekLabelAgrees
+  decide +kernel
+example := C12_week_label_iff_partial 1325570400 1325959200 (by decide) (by decide) (by decide) (by decide)
+example := C12_week_label_printed 1325376000 1325462400 (by decide) (by decide) (by decide) (by decide)
 
 end VerifModel.C12
